@@ -229,6 +229,12 @@ func (p *Prog) HasCodelessAction() bool {
 			return true
 		}
 	}
+	// END blocks are compiled into one sequence; `END {}` gets a Nop, `END { { } }` gets nothing
+	for _, l := range p.End {
+		if len(l) > 0 && codeless(l) {
+			return true
+		}
+	}
 	return false
 }
 
